@@ -205,11 +205,223 @@ def merc_probe(res, cfg, merc0, mode):
     return keep
 
 
+def trace_probe(res, row):
+    """TRACE: interaction mode sums exactly the unflagged planet pairs, Kepler mode the star term of the encounter list plus the
+    flagged pairs between its members (Gravity.tla TraceIntLoop / TraceKepStar / TraceKepPairs); two encounter lists per K."""
+    cfg = row["cfg"]
+    n, na, ty = cfg["n"], cfg["na"], cfg["type"]
+    Na = n if na == -1 else na
+    sim = rebound.Simulation()
+    sim.G = 1.0
+    sim.add(m=1.0)
+    for i in range(1, n):
+        sim.add(m=1e-3 if i < Na else 0.0, x=10.0 * i, vy=0.3 / math.sqrt(i))
+    sim.N_active = na
+    sim.testparticle_type = ty
+    sim.testparticle_hidewarnings = 1
+    sim.integrator = "trace"
+    sim.dt = 1e-6
+    sim.step()                       # allocates current_Ks (N x N) and the encounter map
+    rit = sim.ri_trace
+    sim.particles[0].x = sim.particles[0].y = sim.particles[0].z = 0.0      # heliocentric coordinates
+    for i in range(1, n):
+        x, y, z = pos(i)
+        p = sim.particles[i]
+        p.x, p.y, p.z = x, y, z
+    sim.gravity = "trace"
+    K = set(map(tuple, row["K"]))
+    for a in range(n):
+        for b in range(n):
+            rit._current_Ks[a * n + b] = 1 if (a, b) in K else 0
+    # ---- interaction mode
+    want_int = set(map(tuple, row["int"]))
+    rit._mode = 0
+    for j in range(n):
+        for k in range(n):
+            sim.particles[k].m = 1.0 if k == j else 0.0
+        clibrebound.reb_simulation_update_acceleration(ctypes.byref(sim))
+        res["probes"] += 1
+        for i in range(n):
+            got = (sim.particles[i].ax, sim.particles[i].ay, sim.particles[i].az)
+            if (i, j) in want_int:
+                want = list(kernel(sim.particles[i].x - sim.particles[j].x, sim.particles[i].y - sim.particles[j].y, sim.particles[i].z - sim.particles[j].z, 0.0))
+                ok = rel_ok(got, want)
+            else:
+                want = [0.0, 0.0, 0.0]
+                ok = got == (0.0, 0.0, 0.0)
+            if not ok and len(res["violations"]) < 30:
+                res["violations"].append({"routine": "trace interaction mode", "cfg": cfg, "flagged_pairs": sorted(K), "source": j, "target": i,
+                                          "in_specified_set": (i, j) in want_int, "got": got, "want": want, "clause": "every planet pair that is not flagged, nothing else"})
+    # ---- Kepler mode, over the minimal encounter list and over the list of all bodies
+    for E, key in ((sorted(row["E"]), "kep"), (list(range(n)), "kepfull")):
+        if len(E) < 2:
+            continue
+        want_kep = set(map(tuple, row[key]))
+        rit._mode = 1
+        rit._encounter_N = len(E)
+        rit._encounter_N_active = len([k for k in E if k < Na])
+        for q, k in enumerate(E):
+            rit._encounter_map[q] = k
+        for j in E:
+            for k in range(n):
+                sim.particles[k].m = 1.0 if k == j else 0.0
+                sim.particles[k].ax = sim.particles[k].ay = sim.particles[k].az = 0.0
+            clibrebound.reb_simulation_update_acceleration(ctypes.byref(sim))
+            res["probes"] += 1
+            for i in E:
+                got = (sim.particles[i].ax, sim.particles[i].ay, sim.particles[i].az)
+                if i == 0:
+                    want = [0.0, 0.0, 0.0]                      # heliocentric: the star feels nothing
+                elif j == 0 or (i, j) in want_kep:
+                    want = list(kernel(sim.particles[i].x - sim.particles[j].x, sim.particles[i].y - sim.particles[j].y, sim.particles[i].z - sim.particles[j].z, 0.0))
+                else:
+                    want = [0.0, 0.0, 0.0]
+                if not rel_ok(got, want) and len(res["violations"]) < 30:
+                    res["violations"].append({"routine": "trace kepler mode", "cfg": cfg, "flagged_pairs": sorted(K), "encounter_map": E, "source": j, "target": i,
+                                              "in_specified_set": j == 0 or (i, j) in want_kep, "got": got, "want": want,
+                                              "clause": "star term for every member of the encounter list, flagged pairs between members, nothing else (the two modes add up to every pair once)"})
+    del sim
+
+
+def jacobi_row(res, row):
+    """REB_GRAVITY_JACOBI against GravityJacobi.tla's exact term lists (bodies on the line (2,3,6) * s_k)"""
+    from fractions import Fraction
+    m, sites, terms = row["m"], row["s"], row["terms"]
+    n = len(m)
+    spec = [sum((Fraction(t[0], t[1]) for t in terms[i]), Fraction(0)) for i in range(n)]
+    if sum(m[i] * spec[i] for i in range(n)) != 0:
+        raise RuntimeError("GravityJacobi.tla: specified force does not conserve momentum for %r" % row)
+    for G in (1.0, 2.5):
+        sim = rebound.Simulation()
+        sim.G = G
+        sim.integrator = "whfast"
+        sim.gravity = "jacobi"
+        for k in range(n):
+            sim.add(m=float(m[k]), x=2.0 * sites[k], y=3.0 * sites[k], z=6.0 * sites[k])
+        clibrebound.reb_simulation_update_acceleration(ctypes.byref(sim))
+        res["probes"] += 1
+        scale = max([abs(float(Fraction(t[0], t[1]))) for i in range(n) for t in terms[i]] or [1.0]) * G / 343.0
+        for i in range(n):
+            want = [G * float(spec[i] * c / 343) for c in (2, 3, 6)]
+            got = (sim.particles[i].ax, sim.particles[i].ay, sim.particles[i].az)
+            if not all(abs(g - w) <= 1e-13 * scale * 6 for g, w in zip(got, want)) and len(res["violations"]) < 30:
+                res["violations"].append({"routine": "jacobi", "cfg": {"n": n, "na": -1, "type": 0, "ign": 0}, "masses": m, "abscissae": sites, "G": G, "target": i,
+                                          "source": -1, "got": got, "want": want,
+                                          "clause": "gradient of the Wisdom-Holman interaction Hamiltonian (direct terms except {0,1} plus Jacobi terms)"})
+        del sim
+
+
+def jacobi_equivalence(res, seed, nsys):
+    """the Jacobi term added inside the WHFast interaction step (gravity BASIC, ignore_terms 1) is the same as the one the JACOBI
+    routine computes: one default-kernel WHFast run with each routine, sampled systems incl. massless test particles"""
+    import random
+    rng = random.Random(seed)
+    worst = 0.0
+    for _ in range(nsys):
+        n = rng.randrange(3, 7)
+        ntp = rng.randrange(0, 2)
+        specs = [(10 ** rng.uniform(-6, -3), 1.0 + 0.6 * k + 0.2 * rng.random(), 0.1 * rng.random(), 0.1 * rng.random(), 6 * rng.random()) for k in range(n - 1)]
+        out = []
+        for grav in ("basic", "jacobi"):
+            sim = rebound.Simulation()
+            sim.add(m=1.0)
+            for k, (mm, a, e, inc, f) in enumerate(specs):
+                sim.add(m=0.0 if k >= n - 1 - ntp else mm, a=a, e=e, inc=inc, f=f)
+            if ntp:
+                sim.N_active = n - ntp
+            sim.move_to_com()
+            sim.integrator = "whfast"
+            sim.gravity = grav
+            sim.dt = 0.02
+            sim.steps(60)
+            sim.synchronize()
+            out.append([(p.x, p.y, p.z, p.vx, p.vy, p.vz) for p in sim.particles])
+            grav_after = sim.gravity
+        d = max(abs(a - b) for p, q in zip(*out) for a, b in zip(p, q))
+        worst = max(worst, d)
+        res["probes"] += 1
+        if not d <= 1e-11 and len(res["violations"]) < 30:
+            res["violations"].append({"routine": "jacobi vs whfast interaction step", "cfg": {"n": n, "na": n - ntp, "type": 0, "ign": 1}, "source": -1, "target": -1,
+                                      "got": d, "want": 1e-11, "clause": "WHFast (default kernel) with REB_GRAVITY_JACOBI and with REB_GRAVITY_BASIC + explicit Jacobi term agree to rounding",
+                                      "system": specs})
+    res["jacobi_equivalence_worst"] = worst
+
+
+def tree_angle(res, seed, n):
+    """finite opening angle (sampled): a cell of width w is used as a monopole at its centre of mass only if w < theta d, every
+    particle of it lies within s <= sqrt(3) w of that point, so with x = sqrt(3) theta < 1 the error of each accepted cell is at most
+    (3 x^2 - 2 x^3) / (1 - x)^2 of its G M / d^2 (dipole vanishes about the centre of mass); normalised by the sum of the
+    magnitudes of the individual forces the error must stay below that bound, and it must shrink when theta does."""
+    import random
+    rng = random.Random(seed + 11)
+    pts = []
+    for k in range(n):
+        if k % 3 == 0:
+            c = (20.0, -10.0, 5.0)
+            pts.append((rng.uniform(0.5, 1.5), c[0] + rng.gauss(0, 3), c[1] + rng.gauss(0, 3), c[2] + rng.gauss(0, 3)))
+        else:
+            pts.append((rng.uniform(0.5, 1.5), rng.uniform(-45, 45), rng.uniform(-45, 45), rng.uniform(-45, 45)))
+    direct, mags = [], []
+    for i, (mi, xi, yi, zi) in enumerate(pts):
+        ax = ay = az = sm = 0.0
+        for j, (mj, xj, yj, zj) in enumerate(pts):
+            if i == j:
+                continue
+            dx, dy, dz = xj - xi, yj - yi, zj - zi
+            r2 = dx * dx + dy * dy + dz * dz
+            f = mj / (r2 * math.sqrt(r2))
+            ax += f * dx
+            ay += f * dy
+            az += f * dz
+            sm += mj / r2
+        direct.append((ax, ay, az))
+        mags.append(sm)
+    errs = {}
+    for theta in (0.8, 0.5, 0.4, 0.2, 0.1, 0.0):
+        sim = rebound.Simulation()
+        sim.G = 1.0
+        sim.configure_box(100.0)
+        sim.gravity = "tree"
+        sim.opening_angle2 = theta * theta
+        for mm, x, y, z in pts:
+            sim.add(m=mm, x=x, y=y, z=z)
+        clibrebound.reb_simulation_update_tree(ctypes.byref(sim))
+        clibrebound.reb_simulation_update_tree_gravity_data(ctypes.byref(sim))
+        clibrebound.reb_simulation_update_acceleration(ctypes.byref(sim))
+        res["probes"] += 1
+        e = 0.0
+        for i in range(n):
+            p = sim.particles[i]
+            e = max(e, math.sqrt((p.ax - direct[i][0]) ** 2 + (p.ay - direct[i][1]) ** 2 + (p.az - direct[i][2]) ** 2) / mags[i])
+        errs[theta] = e
+        x = math.sqrt(3) * theta
+        bound = (3 * x * x - 2 * x ** 3) / (1 - x) ** 2 if x < 1 else None
+        if theta == 0.0:
+            bound = 1e-12
+        if bound is not None and not e <= bound + 1e-12 and len(res["violations"]) < 30:
+            res["violations"].append({"routine": "tree", "cfg": {"n": n, "na": -1, "type": 0, "ign": 0}, "source": -1, "target": -1, "got": e, "want": bound,
+                                      "clause": "multipole bound at opening angle %g (error normalised by the sum of the magnitudes of the individual forces)" % theta})
+        del sim
+    if not (errs[0.1] <= errs[0.4] / 4 + 1e-13 and errs[0.2] <= errs[0.8] / 4 + 1e-13) and len(res["violations"]) < 30:
+        res["violations"].append({"routine": "tree", "cfg": {"n": n, "na": -1, "type": 0, "ign": 0}, "source": -1, "target": -1, "got": errs[0.1], "want": errs[0.4] / 4,
+                                  "clause": "tree error shrinks at least like theta when the opening angle is reduced by 4 (observed %r)" % errs})
+    res["tree_angle_errors"] = errs
+
+
 def main():
     table, out, stride = sys.argv[1], sys.argv[2], int(sys.argv[3])
     res = {"cfgs": 0, "probes": 0, "violations": [], "samples": []}
     for k, ln in enumerate(open(table)):
         row = json.loads(ln)
+        if "terms" in row:
+            res["jacobi_rows"] = res.get("jacobi_rows", 0) + 1
+            jacobi_row(res, row)
+            continue
+        if "K" in row:
+            if True:
+                res["trace_rows"] = res.get("trace_rows", 0) + 1
+                trace_probe(res, row)
+            continue
         cfg = row["cfg"]
         if cfg["n"] < 1 or (k % stride and cfg["n"] > 3):
             continue
@@ -229,6 +441,8 @@ def main():
             merc_probe(res, cfg, row["merc0"], 1)
         if len(res["samples"]) < 2 and cfg["n"] == 4 and cfg["na"] == 2:
             res["samples"].append({"cfg": cfg, "specified_acts": row["acts"]})
+    tree_angle(res, int(sys.argv[4]) if len(sys.argv) > 4 else 0, 120 if stride > 1 else 400)
+    jacobi_equivalence(res, int(sys.argv[4]) if len(sys.argv) > 4 else 0, 10 if stride > 1 else 60)
     json.dump(res, open(out, "w"))
 
 
